@@ -17,6 +17,18 @@ CHECKS = [
      "text": "Coq theorems: for every history of public operations the concatenated callback stream replays (strictly: an add of a present or a removal of an absent record is an error) from the empty set to exactly the table contents; pfx_table_free reports every record once. Tie: the harness installs update_fp and the callback stream is compared in order with the model's and replayed independently into a set that must equal the enumeration.",
      "note": "As C01. Reload diff (copy_except/swap/notify_diff) and rollback inside rtr_sync are exercised by the correspondence run; their theorems are listed in evidence when present.",
      "technique": "Coq proof (callback replay = contents, induction over histories) + correspondence"},
+    {"id": "C10",
+     "text": "Coq theorems, for any hash function and any initial size, about an executable model of tommy_hashlin (incremental grow/shrink) and ht-spkitable.c: hashlin and table invariants preserved over all histories; exact return codes, no change on duplicate/unknown; lookups by (AS,SKI) and by SKI are exactly the stored records; remove-by-source/copy/swap/notify_diff in closed form; callbacks replay to the contents, removal by source included (C10_full_holds, after /repo fix 4808153).",
+     "note": "Trusted: Coq kernel; c2v.py for tommy_inthash_u32/TOMMY_HASHLIN_BIT/spki_rtvals; correspondence harness spki_ops.c (ASan+UBSan) vs extracted model, python set oracle. Assumes <2^28 records, no allocation failure (C18), distinct table arguments, single thread. No axioms.",
+     "technique": "Coq proof over hand model + differential correspondence (extracted OCaml vs real C, order-exact) + set-oracle search with delta-debugged replays"},
+    {"id": "C19",
+     "text": "Coq theorems over a Gallina model written after the C loops of ipv4.c/ipv6.c/ip.c: round trip for every IPv4/IPv6 address, output in an RFC 4291 grammar, grammar included in the library parser with equal result, buffer bounds, determinism of the parse result (for the parser as repaired by /repo fix 7b79e06; the variant of the pinned commit is kept and refuted with the witness \"1:2:3\"). Tie: extracted model vs real functions (ASan, stack-prefill, MemorySanitizer) on 14.5k/343k lines per run; the grammar's reference parsers vs inet_pton on every string.",
+     "note": "Trusted: Coq kernel, ExtrOcamlBasic, glibc sscanf/snprintf semantics as modelled (validated per run), inet_pton as platform oracle (agreement with it is differential testing, not proof), harness. No axioms.",
+     "technique": "Coq proof (closed vm_compute sweeps lifted to forall) + differential correspondence + oracle search with shrinking"},
+    {"id": "C15",
+     "text": "Coq theorems by induction over arbitrary operation lists (any number of groups/sockets) over an executable model of rtr_mgr.c: init/add/remove rejections, ascending order invariant, newly-ESTABLISHED only if every socket synced, closing of all less-preferred groups, no upward shutdown, failover to the first closed group. Tied to /repo on every run by line-by-line differential execution against the real rtr_mgr.c (rtr_start/rtr_stop link-time stubs checked side by side against the real functions); thorough tier exhaustive over all 1..3x1..2 configurations (state-merged BFS). The model carries the pinned-commit variant (two clauses refuted with replayed witnesses) and the repaired variant (/repo fixes e25b98f, 58f5da3), and the check selects the one the code matches.",
+     "note": "Trusted: Coq kernel, hand-written MgrModel.v (tied by correspondence), link-time stubs, tommy list as Coq list, serialised callbacks (concurrent rtr_mgr_cb of two socket threads not covered). No axioms.",
+     "technique": "Coq invariant proof over an executable model + exhaustive/sampled differential correspondence with the shipped C + independent per-clause trace oracle"},
     {"id": "C20",
      "text": "Coq theorems over the translator's output (both enums, both name tables, both function bodies, regenerated from /repo on every run): every enumerator maps to its name, every other 32-bit value to NULL, no table read out of range. The real functions are additionally run under ASan on every enumerator and on values outside.",
      "note": "Trusted: Coq kernel, tools/c2v.py + clang AST, 32-bit enum objects, LP64. No axioms.",
